@@ -49,3 +49,6 @@ pub fn pick(sel: u16, n: usize) -> usize {
     ((sel as usize) * n) >> 16
 }
 pub mod tx;
+pub mod tx_ext;
+pub mod crypto;
+pub mod validtx;
